@@ -644,3 +644,46 @@ def c06_bad(project, k):
 def kf_licenseref_bad(k):
     """known finding: a LicenseRef- identifier without a registered LICENSES/ file (or containing 'Unknown') is classed bad"""
     return is_licenseref_id(k) or is_licenseref_id(strip_plus(k))
+
+
+# ---- C13: the subset report behind `reuse lint-file` --------------------------------------------------------------------
+@spec
+def subset_no_licence(r):
+    return {fr.path for fr in r.file_reports if len(fr.licenses_in_file) == 0}
+
+
+@spec
+def subset_no_copyright(r):
+    return {fr.path for fr in r.file_reports if fr.copyright == ""}
+
+
+@spec
+def subset_reports_anything(r):
+    """format_lines_subset prints one line per (licence, file) of missing_licenses, per read error, per file without
+    licence and per file without copyright: something is reported iff one of the four collections is non-empty"""
+    return bool(r.missing_licenses) or bool(r.read_errors) or bool(subset_no_licence(r)) or bool(subset_no_copyright(r))
+
+
+@contract("reuse.report.ProjectSubsetReport.files_without_licenses", serves=["C13"])
+class SubsetFilesWithoutLicenses:
+    types = {"self": "ProjectSubsetReport", "return": "set[Path]"}
+
+    def post(self, result):
+        return result == subset_no_licence(self)
+
+
+@contract("reuse.report.ProjectSubsetReport.files_without_copyright", serves=["C13"])
+class SubsetFilesWithoutCopyright:
+    types = {"self": "ProjectSubsetReport", "return": "set[Path]"}
+
+    def post(self, result):
+        return result == subset_no_copyright(self)
+
+
+@contract("reuse.report.ProjectSubsetReport.is_compliant", serves=["C13"])
+class SubsetIsCompliant:
+    types = {"self": "ProjectSubsetReport", "return": "bool"}
+
+    def post(self, result):
+        # C13: lint-file exits 1 iff it reported any problem
+        return result == (not subset_reports_anything(self))
